@@ -133,7 +133,9 @@ impl Runner {
                 let task = &tasks[i];
                 let fp_seed = mix(env.sub, 0xF00 + i as u64);
                 let intensity = env.fp_intensity;
-                let tname = format!("{scenario}/{}", names[i]);
+                // short role names only: thread names are truncated to 15 bytes and the
+                // signature of a sanitizer report is built from them
+                let tname = names[i].to_string();
                 std::thread::Builder::new()
                     .name(tname)
                     .spawn_scoped(s, move || {
@@ -180,8 +182,7 @@ impl Runner {
         let logs: Vec<ThreadLog> = logs.into_iter().map(|l| l.unwrap()).collect();
         for (i, l) in logs.iter().enumerate() {
             if l.facts.contains_key("panicked") {
-                let tname = format!("{scenario}/{}", names[i]);
-                match take_panic(&tname) {
+                match take_panic(names[i]) {
                     Some(p) if p.in_library => {
                         v.fail("panic", format!("thread {} panicked: {}", names[i], p.msg))
                     }
